@@ -80,6 +80,7 @@ def run_spawned_case(case, ctx, mon):
         mon.count("spawned_death_runs_completed")
         mon.seen("spawned_death_exception", (r or {}).get("exc", "")[:60])
         mon.seen("spawned_death_n_workers", case["n_workers"])
+        mon.seen("spawned_death_how", case["items"][case["lethal"]].get("how", "os._exit(3)"))
         mon.extra(**{"spawned_death_wall_s_max": 0})
         mon._extra["spawned_death_wall_s_max"] = max(mon._extra.get("spawned_death_wall_s_max", 0), round(out["wall"], 1))
         mon.nontrivial(True)
@@ -87,11 +88,13 @@ def run_spawned_case(case, ctx, mon):
         P.cleanup_spawned(out)
 
 
-def spawned_death_case(rng, nw, kth):
+def spawned_death_case(rng, nw, kth, how=None):
     keys = key_family(rng, 6, 0, 8)
     n_items = 2 * nw + 3
     lethal = min(n_items - 1, kth)
     items = P.gen_items(rng, n_items, keys, marks={lethal: "exit"}, sleep=True)
+    if how:
+        items[lethal]["how"] = how
     return {"type": "spawned", "items": items, "n_workers": nw, "combo": list(COMBO_ALL), "args": P.gen_args(rng, COMBO_ALL, "linear"),
             "lethal": lethal, "timeout": 600, "item_kind": pick(rng, ["dict", "bytes", "int"])}
 
@@ -100,10 +103,10 @@ def gen_cases(ctx):
     rng = ctx.rng("cases")
     q = ctx.quick
     sh, ns = ctx.shard, ctx.nshards
-    plan = [(2, 1)] if q else [(1, 0), (2, 1), (3, 2), (2, 4), (3, 0), (1, 2)]
-    for j, (nw, kth) in enumerate(plan):
+    plan = [(2, 1, None)] if q else [(1, 0, None), (2, 1, None), (3, 2, None), (2, 4, "sigkill"), (3, 0, "sigkill"), (1, 2, None), (2, 0, "sigkill"), (1, 1, "sigkill")]
+    for j, (nw, kth, how) in enumerate(plan):
         if q or j % ns == sh:
-            yield spawned_death_case(rng, nw, kth)
+            yield spawned_death_case(rng, nw, kth, how)
     # --- exhaustive: mark vectors x schedules
     n_items, n_workers = (3, 2) if q else (4, 3)
     base = ctx.rng("exh")
